@@ -18,9 +18,14 @@ def run(chk):
     cfgs = ["base", "z"] if chk.tier == "quick" else ["base", "z", "hi", "z+hi"]
     chk.configs = cfgs
     chk.rule("FLOAT.double-only", "no float-typed expression and no single-precision math function in any library function")
+    chk.rule("POLY.intersect", "GetSegmentIntersectPt (both precision variants): as a real-number formula the stored point lies on the lines through both "
+             "segments, and 'parallel' is reported iff the cross product of the directions vanishes (identity of polynomial normal forms)")
     chk.rule("T.closed", "IsContributingClosed(fill, clip, own path type, wind_cnt cell, wind_cnt2 cell) == "
              "[the edge separates own-filled from own-unfilled AND flipping own membership changes op(subject, clip)], "
              "for every reachable cell; abstract interpretation of the function's AST, exhaustive over the partition")
+    from ..engines import e14_poly as e14
+    for cfg in sorted(set(cfgs) | {"hi"}):          # both intersection-point precision options, in the quick tier too
+        e14.rule_intersect(AstDB(cfg), chk, cfg)
     for cfg in cfgs:
         db = AstDB(cfg)
         e3.table_closed(db, chk, cfg)
